@@ -265,8 +265,38 @@ sys.exit(1 if bad else 0)
 '''
 
 
+ATTR_PROMOTE = '''
+# two attribute parameters of one kind used as tensor operands in one graph: the model that calls the function proto vs eager mode
+import sys
+import numpy as np
+import onnx, onnxruntime as ort
+from onnx import helper, TensorProto
+from onnxscript import script, FLOAT
+from onnxscript import opset18 as op
+from onnxscript.values import Opset
+local = Opset("local.test", 1)
+@script(local, default_opset=op)
+def affine(x, alpha: float = 2.0, beta: float = 3.0, flag: bool = True, n: int = 4):
+    y = x * alpha + beta
+    z = op.Where(flag, y, y * 0.0)
+    return z + op.Cast(n, to=1)
+fp = affine.to_function_proto()
+g = helper.make_graph([helper.make_node("affine", ["x"], ["y"], domain="local.test", alpha=5.0, beta=7.0, flag=1, n=9)], "g",
+                      [helper.make_tensor_value_info("x", TensorProto.FLOAT, [2])], [helper.make_tensor_value_info("y", TensorProto.FLOAT, [2])])
+m = helper.make_model(g, functions=[fp], opset_imports=[helper.make_opsetid("", 18), helper.make_opsetid("local.test", 1)], ir_version=9)
+x = np.array([1, 2], np.float32)
+graph = ort.InferenceSession(m.SerializeToString()).run(None, {"x": x})[0]
+eager = np.asarray(affine(x, alpha=5.0, beta=7.0, flag=True, n=9))
+want = x * 5.0 + 7.0 + 9.0
+print("graph", graph.tolist(), "eager", eager.tolist(), "python", want.tolist())
+sys.exit(0 if np.array_equal(graph, want) and np.array_equal(eager, want) else 1)
+'''
+
+
 def replay(ob):
     name = ob["name"]
+    if ".converter.attribute_parameter." in name:
+        return ATTR_PROMOTE
     if "outputs_are_pairwise_distinct_values" in name:
         return DUP_OUTPUTS
     if ".converter.assign." in name or name.startswith("Converter._translate_assign_stmt.loop"):
